@@ -1,5 +1,6 @@
 import Driver.Ops
 import FV.IoAsync
+import FV.IoAsyncRecv
 /-! Model side of the IO suites (`S`, `R`, `AS`, `AR`, `AP` lines). -/
 open FV
 namespace Drv
@@ -20,6 +21,10 @@ def toAEvs (s : List SEv) (tail : Nat) : List AEv :=
     ++ List.replicate tail (.ok big)
 def toReadEvs (s : List SEv) (tail : Nat) : List ReadEv :=
   (s.filterMap fun e => match e with | .n k => some (.deliver k) | .zero => some (.deliver 0) | .fail => some .fail | .pending => none)
+    ++ List.replicate tail (.deliver big)
+
+def toAREvs (s : List SEv) (tail : Nat) : List AREv :=
+  (s.map fun e => match e with | .n k => .deliver k | .zero => .deliver 0 | .fail => .fail | .pending => .pending)
     ++ List.replicate tail (.deliver big)
 
 structure SendSt where
@@ -116,13 +121,29 @@ def consumedWithPendings : List SEv → Nat → Nat
   | .pending :: r, k => 1 + consumedWithPendings r k
   | _ :: r, k+1 => 1 + consumedWithPendings r k
 
+/-- the async receiver loop: the model of the async `recv` itself, `Pending` outcomes included (that it agrees with the blocking
+`recv` on the script without them is `C08_receiver_refines_blocking`) -/
+def arecvLoopD (t : Ty) : Nat → List AREv → RBuf → Bytes → List String → List String × List AREv
+  | 0, evs, _, _, acc => (acc.reverse, evs)
+  | k+1, evs, b, rest, acc =>
+    match arecv t.dict false evs b rest with
+    | (.msg _, b', rest', evs') =>
+      match t.dict.size b'.slice, dropGuard t.dict b', t.walk b'.slice with
+      | .ok z, some b'', .ok w => arecvLoopD t k evs' b'' rest' (s!"msg:{z}:{us (stripCaps w)}" :: acc)
+      | _, _, _ => (("PANIC" :: acc).reverse, evs')
+    | (.readErr, b', rest', evs') => arecvLoopD t k evs' b' rest' ("read" :: acc)
+    | (.parse e, _, _, evs') => ((s!"parse:{errStr e}" :: acc).reverse, evs')
+    | (.oom, _, _, evs') => (("oom" :: acc).reverse, evs')
+    | (.closed, _, _, evs') => (("closed" :: acc).reverse, evs')
+    | (.blocked, _, _, evs') => (("BLOCKED" :: acc).reverse, evs')
+    | (.fault, _, _, evs') => (("PANIC" :: acc).reverse, evs')
+
 def runAR (t : Ty) (max : Nat) (script : List SEv) (nrecv : Nat) (stream : Bytes) : String :=
   let cap := bufCap t max
   let tail := stream.length + nrecv + 4
-  let evs := toReadEvs script tail
-  let (outs, evs') := recvLoopD t nrecv evs ⟨0, cap, 0, []⟩ stream []
-  let consumed := evs.length - evs'.length
-  s!"{joinC outs} reads={consumedWithPendings script consumed}"
+  let evs := toAREvs script tail
+  let (outs, evs') := arecvLoopD t nrecv evs ⟨0, cap, 0, []⟩ stream []
+  s!"{joinC outs} reads={evs.length - evs'.length}"
 
 /-- the composed system: everything sent is delivered in order, then `Closed` -/
 def runAP (t : Ty) (max : Nat) (inits : List Init) : String :=
